@@ -104,12 +104,17 @@ pub open spec fn still_vetted(after: io::PacketTransport<InnerTcpStream>, before
         && after.source.log().take(before.source.log().len() as int) =~= before.source.log()
 }
 
-#[verifier::exec_allows_no_decreases_clause]
-pub fn into_stream_with_retry<Q: Sequence>(input: Q::Input, src: &mut TcpStream, mut retry: VRetryStream, timeout: VDuration, __sink: &mut VSink<Result<Q::Output>>)
+pub fn into_stream_with_retry<Q: Sequence>(input: Q::Input, src: &mut TcpStream, retry0: VRetryStream, timeout: VDuration, __sink: &mut VSink<Result<Q::Output>>)
     requires
         old(src).inner matches Some(c) ==> vetted(c, old(src).config),
     ensures
         final(src).config == old(src).config,
+//@ tag retry.budget_bounds_attempts C10
+        // one call starts at most as many exchanges as the retry stream has items: no path re-enters the loop without
+        // drawing from the budget (each exchange itself ends at its last item or at the first per-packet timeout; the
+        // function terminates: both loops carry a decreasing measure)
+        final(__sink).attempts().len() - old(__sink).attempts().len() <= retry0.left(),
+//@ untag
 //@ tag retry.only_vetted_connections C09
         // whatever is kept for the next call is a vetted connection, and every exchange ran on one
         final(src).inner matches Some(c) ==> vetted(c, old(src).config),
@@ -127,10 +132,15 @@ pub fn into_stream_with_retry<Q: Sequence>(input: Q::Input, src: &mut TcpStream,
             ==> still_vetted(final(__sink).attempts()[old(__sink).attempts().len() as int].conn, old(src).inner.unwrap()),
 //@ untag
 //@ fn src:zvt_feig_terminal/src/stream.rs | trait ResetSequence | into_stream_with_retry | bodyonly macro=stream yieldctx=none dropnote=stream selfty=Q all-loops props=C09
+//@ entry
+    let mut retry = retry0;
 //@ loop 0
         invariant
             src.config == old(src).config,
             __sink.attempts().len() >= old(__sink).attempts().len(),
+//@ tag retry.budget.inv C10
+            (__sink.attempts().len() - old(__sink).attempts().len()) + retry.left() <= retry0.left(),
+//@ tag retry.inv ~C09
             src.inner matches Some(c) ==> vetted(c, old(src).config),
             forall|i: int| old(__sink).attempts().len() <= i < __sink.attempts().len() ==> vetted((#[trigger] __sink.attempts()[i]).conn, old(src).config) && __sink.attempts()[i].failed,
             __sink.attempts().len() > old(__sink).attempts().len() ==> src.inner is None,
@@ -138,6 +148,8 @@ pub fn into_stream_with_retry<Q: Sequence>(input: Q::Input, src: &mut TcpStream,
             (old(src).inner is Some && __sink.attempts().len() > old(__sink).attempts().len())
                 ==> still_vetted(__sink.attempts()[old(__sink).attempts().len() as int].conn, old(src).inner.unwrap()),
         ensures retry.left() == 0,
+//@ tag retry.terminates C10
+        decreases retry.left(),
 //@ loop 1
         invariant_except_break
             !is_err,
@@ -151,4 +163,9 @@ pub fn into_stream_with_retry<Q: Sequence>(input: Q::Input, src: &mut TcpStream,
             vetted(stream.conn(), old(src).config),
             (__sink.attempts().len() == old(__sink).attempts().len() && old(src).inner is Some) ==> still_vetted(stream.conn(), old(src).inner.unwrap()),
             is_err <==> (stream.saw_err() || stream.timed_out()),
+//@ tag retry.budget.inv C10
+            // the token for this exchange is spent, its attempt not yet recorded
+            (__sink.attempts().len() - old(__sink).attempts().len()) + retry.left() + 1 <= retry0.left(),
+//@ tag retry.exchange_terminates C10
+        decreases stream.rest().len(),
 //@ end
